@@ -3,9 +3,9 @@ package main
 // C07: Base58 / Base58Check / bech32 / ConvertBits.
 
 import (
-	"strings"
 	"github.com/gcash/bchutil/base58"
 	"github.com/gcash/bchutil/bech32"
+	"strings"
 )
 
 func init() {
@@ -141,7 +141,9 @@ func opConvertBits(_ *HState, a Event) Event {
 	m0 := ints(backing)
 	var ret []byte
 	var err error
-	p, msg := guard(func() { ret, err = bech32.ConvertBits(arg, uint8(gInt(a, "from")), uint8(gInt(a, "to")), gBool(a, "pad")) })
+	p, msg := guard(func() {
+		ret, err = bech32.ConvertBits(arg, uint8(gInt(a, "from")), uint8(gInt(a, "to")), gBool(a, "pad"))
+	})
 	return panicField(with(a, "ok", err == nil && !p, "ret", ints(ret), "mem0", m0, "mem1", ints(backing)), p, msg)
 }
 
@@ -164,6 +166,7 @@ func chkdec(c *Ctx, s string) Event { return c.Call(Event{"op": "CheckDecode", "
 func b32enc(c *Ctx, hrp string, data []byte, extra int) Event {
 	return c.Call(Event{"op": "Bech32Encode", "hrp": str(hrp), "data": ints(data), "extra": extra})
 }
+
 // b32Lookalikes: the valid string s (lower case) with 1..4 letters replaced by code points that Unicode case mapping
 // folds onto them (KELVIN SIGN -> k, dotted capital I -> i, long s -> S, dotless i -> I), in both case forms.
 // Only ASCII is bech32: all of them must be rejected.
@@ -192,6 +195,40 @@ func b32Lookalikes(c *Ctx, s string) {
 			}
 			b32dec(c, sb.String())
 		}
+	}
+}
+
+// b32CaseFlips: the valid lower-case string s with the first occurrence of each distinct letter (one at a time, and
+// two to four together) written in upper case: mixed-case strings are not bech32, whatever the letter.
+func b32CaseFlips(c *Ctx, s string) {
+	seen := map[byte]bool{}
+	var pos []int
+	for i := 0; i < len(s); i++ {
+		if ch := s[i]; ch >= 'a' && ch <= 'z' && !seen[ch] {
+			seen[ch] = true
+			pos = append(pos, i)
+		}
+	}
+	if len(pos) < 2 {
+		return
+	}
+	flip := func(ps []int) string {
+		b := []byte(s)
+		for _, p := range ps {
+			b[p] -= 32
+		}
+		return string(b)
+	}
+	for _, p := range pos {
+		b32dec(c, flip([]int{p}))
+	}
+	for w := 2; w <= 4 && w < len(pos); w++ {
+		pm := c.Rng.Perm(len(pos))[:w]
+		var ps []int
+		for _, j := range pm {
+			ps = append(ps, pos[j])
+		}
+		b32dec(c, flip(ps))
 	}
 }
 
@@ -347,6 +384,9 @@ func runC07(c *Ctx) {
 		}
 		if k%6 == 0 {
 			b32Lookalikes(c, s)
+		}
+		if k%12 == 0 {
+			b32CaseFlips(c, s)
 		}
 		if k%25 == 0 {
 			for _, w := range wsWraps(s) {
